@@ -230,6 +230,7 @@ class Program:
         self.promoted = {}     # (fn name, idx) / suffix -> Fn
         self.consts = {}       # const path -> (value, type)
         self.closures = {}     # span string -> {idx: Fn}
+        self.closures_all = {}
         self.hashes = {}
         self.executed = {}
 
@@ -295,6 +296,11 @@ class Program:
                 mc = re.match(r'^const ([\w:{}#<>]+): (.*?) = (const .*);$', l)
                 if mc:
                     self.consts[mc.group(1)] = mc.group(3)
+                elif l.startswith('const ') and ' = const ' in l and l.endswith(';') and '<impl at ' in l:
+                    # constant scoped under an impl block: `const m::<impl at file:l:c: l:c>::f::NAME: ty = const v;`
+                    left, val = l[6:].split(' = const ', 1)
+                    if ': ' in left:
+                        self.consts[left[:left.rindex(': ')]] = 'const ' + val[:-1]
             i += 1
 
     def _src_line(self, file, line):
@@ -370,6 +376,7 @@ class Program:
             if ms:
                 fn.span = ms.group(1)
                 self.closures.setdefault(ms.group(1), fn)
+                self.closures_all.setdefault(ms.group(1), []).append(fn)      # several closures can share a span (macro expansions)
 
     def find_promoted(self, cur_fn, tok):
         idx = re.search(r'promoted\[\d+\]$', tok).group(0)
